@@ -37,6 +37,15 @@ def jobs(tier):
         for mm in ((0, 1, 2) if init == 2 or not q else (0,)):
             J.append(conc("2,0,0,0", hmap=hm, init=init, mm=mm, enum=1, enum2=4, nenum=2, nops=1, **TWO))
         J.append(conc("1,1,0,0" if q else "2,1,0,0", hmap=hm, init=init, enum=1, enum2=4, nenum=2, nops=1, **TWO))
+    # operations on a key whose hash is the index of a bucket the concurrent grow is creating (hash in [old size, new size))
+    for hm, init, ik in ((1, 1, 0x10), (2, 2, 0x10), (1, 1, 0x0)):
+        J.append(conc("2,0,0,0", hmap=hm, init=init, enum=5, enum2=4, nenum=2, nops=1, ninit=2 if ik else 1, init_keys=ik))
+    J.append(conc("1,1,0,0", hmap=1, init=1, enum=5, enum2=4, nenum=2, nops=1, **TWO))
+    # partitioned grow with pthread_create failing for one helper: the leftover partition must still be populated
+    J.append(conc("1,0,1,0", workers=16, hmap=1, init=1, min_partition_order=0, pthread_create_eagain=1, prog0=prog((K_RESIZE, 4)),
+                  prog1=prog((K_LOOKUP, 1), (K_WALKALL, 0)), **TWO))
+    J.append(conc("1,0,1,0", workers=16, hmap=1, init=2, min_partition_order=0, pthread_create_eagain=1, prog0=prog((K_RESIZE, 8), (K_RESIZE, 2)),
+                  prog1=prog((K_LOOKUP, 1), (K_LOOKUP, 0)), final_destroy=1, **TWO))
     # two operations against a resize
     J.append(conc("1,0,0,0" if q else "2,0,0,0", workers=16, hmap=2, init=2, enum=1, enum2=4, nenum=2, nops=1,
                   prog2=prog((K_LOOKUP, 0), (K_WALKALL, 0)), **TWO))
